@@ -38,6 +38,12 @@ class C11(Prop):
             s.append(("code-" + e, ["D %s %04x" % (e, v) for v in range(65536)]))
         s.append(("code-encode", ["E %s %d" % (e, v) for e in ("Type", "Class", "QType", "QClass")
                                   for v in sorted(self.iana[e].values())]))
+        # the same code points where they occur in practice: the CLASS of a record (an NS record, any class allowed), the
+        # QTYPE and QCLASS of a question, every value -- the record / question readers have their own copy of the conversion
+        s.append(("class-in-record", ["D RR 000002%04x00000005000100" % v for v in range(65536)]))
+        s.append(("qclass-in-question", ["D Question 000001%04x" % v for v in range(65536)]))
+        s.append(("qtype-in-question", ["D Question 00%04x0001" % v for v in range(65536)]))
+        s.append(("type-in-record", ["D RR 00%04x000100000005000100" % v for v in range(65536)]))
         return s
 
     def view(self, case, line):
@@ -81,6 +87,33 @@ class C11(Prop):
                     b(15), opcode, b(10), b(9), b(8), b(7), b(5), b(4), rcode, word)
             if strip_cost(line) != exp:
                 return "flag word %04x: expected `%s`, implementation `%s`" % (word, exp, strip_cost(line)[:200])
+            return None
+        if w[0] == "D" and w[1] in ("RR", "Question"):
+            b = bytes.fromhex(w[2])
+            out = strip_cost(line)
+            if w[1] == "Question":
+                qt, qc = int.from_bytes(b[1:3], "big"), int.from_bytes(b[3:5], "big")
+                if qt not in self.iana["QType"].values():
+                    exp = "ERR QType %d" % qt
+                elif qc not in self.iana["QClass"].values():
+                    exp = "ERR QClass %d" % qc
+                else:
+                    exp = "OK (Q (N) %d %d)" % (qt, qc)
+                if not out.startswith(exp):
+                    return "question with QTYPE %d QCLASS %d: expected `%s`, implementation `%s`" % (qt, qc, exp, out[:160])
+                return None
+            t, c = int.from_bytes(b[1:3], "big"), int.from_bytes(b[3:5], "big")
+            if t == 2:
+                # an NS record (root target): every registered class is accepted, every other one is an error carrying it
+                exp = "OK (RR 2 (N) %d 5 (G (N)))" % c if c in self.iana["Class"].values() else "ERR Class %d" % c
+                if not out.startswith(exp):
+                    return "record with CLASS %d: expected `%s`, implementation `%s`" % (c, exp, out[:160])
+                return None
+            if t not in self.iana["Type"].values():
+                if out != "ERR Type %d" % t:
+                    return "record with unsupported TYPE %d: expected `ERR Type %d`, implementation `%s`" % (t, t, out[:160])
+            elif out.startswith("OK ") and not out.startswith("OK (RR %d " % t):
+                return "record with TYPE %d decoded as another type: %s" % (t, out[:160])
             return None
         if w[0] == "D":
             v = int(w[2], 16)
